@@ -44,7 +44,7 @@ CLAIMED["C18"] = ("Bounded symbolic model checking of CopyItemProperties and the
          "One property at a time, or all at once; arbitrary subsets are outside the claim. Typed-nil sides are C20's subject.",
          "7 C18")
 CLAIMED["C20"] = ("Exhaustive finite matrix explored by the symbolic executor: the untyped nil and a nil pointer of every vocabulary struct type found in the current source (15 kinds) x 64 helper entries (every exported function/method with an Item/LinkOrIRI parameter found in the current source is either exercised or listed as constructor/indirect - a coverage harness fails if a new one appears) at top level, as a member of a list handed to the list-aware helpers, and as a property of an otherwise valid activity/object. Asserted: no panic (Go run-time panics are detected by the interpreter with Go's rules, including the synthesised pointer-receiver wrappers), IsNil true, NotEmpty false, equal to nil and unequal to non-nil, callbacks receive nil or are not invoked, neutral results; any view larger than its allocation is an engine event.",
-         "The package-level encoders MarshalJSON(Item)/GobEncode(Item) go through jsonld/gob (reflection) and are exercised through the per-type MarshalJSON only.",
+         "The package-level MarshalJSON(Item) goes through jsonld (reflection) and is exercised through the per-type MarshalJSON methods; GobEncode(Item) is driven directly (gob model).",
          "7 C20")
 
 CLAIMED["C01"] = ("Bounded symbolic model checking of the JSON encoders and decoders (the real per-type MarshalJSON, UnmarshalJSON, fastjson, net/url, time and strconv code, interpreted): for all 14 vocabulary struct types and every field of the current struct definitions (generated), every value shape (IRI, object with/without id, link, actor, 2-element list, activity, one-element lists, 1-3 language values, three instants, three durations, symbolic small integers, floats incl. negative, strings) with symbolic id characters and two-byte symbolic texts, the decoded value has the same Go type and equals the encoded one field by field after the documented normal form; per-type UnmarshalJSON methods agree; thorough adds everything-populated values and depth-2 nesting.",
@@ -62,7 +62,7 @@ CLAIMED["C06"] = ("Bounded symbolic model checking of both codecs on natural-lan
          "7 C06")
 
 CLAIMED["C04"] = ("Bounded symbolic model checking of every decoding entry point found in the current source (all UnmarshalJSON/UnmarshalText/GobDecode/UnmarshalBinary methods with a []byte parameter plus the package-level UnmarshalJSON and GobDecode, about 75): RAW - 0, 1 and 2 (thorough 3) completely unconstrained input bytes through the real fastjson parser and text unmarshalers (gob entry points: 0-1 bytes, 2 in thorough); SKEL - documents of 13 type families in which each term the decoders look up (harvested from the source) carries one of 21 values of unexpected kinds; HOLE - an unconstrained 1-2 (thorough 3) byte hole as the value of a term, as a member name and between members; DEEP - 40-fold nesting; GOB - valid streams carrying arbitrary small property maps, lists, scalars and pair lists at every GobDecode entry point. Asserted: no panic (interpreter detects run-time panics), every path terminates within the instruction budget, and whatever is returned can be inspected, compared and re-encoded in both codecs without panicking.",
-         "Time and memory proportional to the input is not decided (no cost model; a path that exceeded the budget would make the run inconclusive). Inputs longer than the stated number of free bytes outside the skeleton/hole families are outside the claim. Gob streams: relative to the gob model - real gob stream parsing is inside the stub; the hostile property maps travel in valid streams so every path is replayed against real gob natively. Formatting (%s and %v through fmt, interpreted from source over the reflect model) is part of the follow-up on every returned value.",
+         "Time and memory proportional to the input is decided only through the WORK proxy (values built per nesting depth) and the per-path instruction budget (a path that exceeded it would make the run inconclusive); there is no general cost model. Inputs longer than the stated number of free bytes outside the skeleton/hole families are outside the claim. Gob streams: relative to the gob model - real gob stream parsing is inside the stub; the hostile property maps travel in valid streams so every path is replayed against real gob natively. Formatting (%s and %v through fmt, interpreted from source over the reflect model) is part of the follow-up on every returned value.",
          "7 C04")
 CLAIMED["C05"] = ("Bounded symbolic model checking of the JSON decoders against documents produced by an independent writer in the harness (terms taken from the jsonld tags of the current struct definitions): for every type and every tagged field, each value shape (IRI string, embedded object with/without id/type, link, actor, activity, arrays, one-element arrays, single embedded object for list properties; text as plain string or as a language map under termMap; numbers, booleans, instants, xsd durations), in three writer variants (canonical; one-member lists as the bare member / single values as one-element arrays; single texts as language maps); asserted: decoding yields the Go type the document names and exactly the model's properties (field by field, modulo the one-element-list normal form), then encode-decode yields the same value and the bytes no longer change. The 19 mock documents of the repository decode and reach a fixpoint.",
          "One property per document besides id/type; symbolic id characters and two-byte texts; mock documents are used as they are (no structure-preserving mutation). Same numeric sets as C01.",
@@ -76,6 +76,29 @@ CLAIMED["C08"] = ("Two parts. Static, exact: every unsafe.Pointer-to-*T conversi
 CLAIMED["C12"] = ("Bounded symbolic execution with a write monitor: a value of every vocabulary type with every field populated (one symbolic id character, a text containing quote, backslash and a symbolic byte), item lists and IRI lists; vpFreeze() marks every object allocated so far and the package's variables read-only in the interpreter; then each of 17 read-only operations (MarshalJSON, GobEncode, ItemsEqual with itself and with a copy, IsNil, NotEmpty, the predicates, GetLink/GetType, DerefItem, OnObject/ToObject/OnActivity/OnCollectionIntf with read-only callbacks, ItemOrderTimestamp, Contains, decoding an unrelated document, natural-language accessors) runs twice: any store into frozen memory is a violation naming the writing function, and both invocations must answer the same. Race-freedom is the corollary: these operations write only memory they allocated themselves, so concurrent readers of one shared value cannot race and compute the sequential results.",
          "Interleavings are not explored: the claim is write-freedom on every path within the bound, from which race-freedom follows for the argument's heap and the package variables; synchronisation inside the standard library (fmt's pool, gob's type cache) is trusted. GobEncode is relative to the gob model.",
          "7 C12")
+
+# additions made after the rounds of seeded changes (DESIGN.md section 11), appended to the level text
+EXTRA = {
+ "C01": " Also: every member of Endpoints, PublicKey and Source populated alone; links that carry an id; everything populated at once (quick tier too); bare embedded objects; texts with backslash sequences, quotes, markup, separators and JSON-looking content in every natural-language property of every type, single and inside two-language maps. Lists are quantified over members of distinct identity (JSON decoding de-duplicates list members by design).",
+ "C02": " Also: hostile language tags at three map positions, next to an untagged or empty-tag entry; lists of 2 (thorough 3) entries drawn from eight kinds including entries that serialise to nothing (nil, nil pointer, empty IRI, empty object) in eight list-valued positions: valid JSON holding exactly the written entries in order.",
+ "C03": " Also: members of the nested structs alone; lists with a repeated member and natural-language lists with a repeated tag or two untagged texts (gob keeps them member for member); everything populated at once.",
+ "C04": " Also WORK: for a chain of 6 (thorough 10) objects nested through any one item-valued term of any family, the number of values the decoder requests from the type registry (a natively observable count) is at most three times the depth - a proxy for work proportional to the input that rules out re-decoding a term at every level. A native replay process that dies (stack overflow) is bisected so that the dying case is isolated and reported.",
+ "C05": " Also: id-less documents bearing every type name of the vocabulary with one property, at top level and nested; a document with every property of its type; decode-encode-decode of escape-bearing texts.",
+ "C06": " Also: source content without a media type and link names, in both codecs.",
+ "C07": " Also: a value of every Go type with any one further property set (formerType, relationship, nested typed objects) keeps its Go type and type name through both codecs; documents that hold nothing but a type are values of that type at top level, nested and in lists.",
+ "C08": " The dynamic part now drives all 13 On* helpers and OnCollectionIntf (what the callback receives is a view of the argument: reads agree, writes are seen by the original).",
+ "C09": " Also: ids with repeated query keys (multisets); a change of one property in a fully populated value; a repeated text entry on one side.",
+ "C10": "",
+ "C11": " Also: an activity embedded at a walked position whose own actor/object carry bto/bcc.",
+ "C12": " The values also hold lists of four members that no key sorts (a 'tidying' read is a write), language values with entries the encoders skip; sort.Slice/SliceStable are interpreted (the swapper from reflectlite is modelled).",
+ "C13": " Also: pre-state of 3 in the quick tier, an arbitrary declared totalItems (Count is the number of members), and fully populated members of six types (membership goes through the library's equality).",
+ "C14": " Also: an absolute URL against scheme-relative, host-less, scheme-only and opaque strings sharing its parts: symmetric, reflexive, membership agrees.",
+ "C16": " Also: links that carry an id stay links; the same addressee in two lists; a fully populated base value stays otherwise unchanged.",
+ "C17": " Also: every vocabulary type that has published/updated, populated through its own struct fields (generated from the struct definitions), with every other instant set to a far-future decoy.",
+ "C18": " The two sides always carry different values of the property (different instants, durations, numbers, ids).",
+ "C19": " Texts are drawn from an alphabet with a case pair and may be empty (the tag is present all the same).",
+ "C20": " Also driven: the gob encoder (top level, property, list member), every On* helper over a list with a nil member, ToIRIs of list and pointer to list, ItemCollection.Recipients/Remove/Append, typed-nil collection properties.",
+}
 
 NOT_YET = {}
 
@@ -92,9 +115,9 @@ def main():
             "evidence_file": f"/verif/evidence/{pid}.json",
             "replay_cmd_template": "/verif/bin/gosx replay {path}",
             "engine": "gosx",
-            "level_claimed": {"category": "model_checking", "text": text, "design_ref": "DESIGN.md section " + ref},
+            "level_claimed": {"category": "model_checking", "text": text + EXTRA.get(pid, ""), "design_ref": "DESIGN.md section " + ref},
             "level_note": note,
-            "technique": "bounded symbolic execution of the real code from go/ssa; branches and assertions decided by an SMT solver (z3); counterexamples replayed natively",
+            "technique": "bounded symbolic execution of the real code from go/ssa; branches and assertions decided by an SMT solver (z3 5.1.0; verdicts cross-checked against z3 4.8.12 and cvc5 with tools/crosscheck.py); counterexamples replayed natively",
         })
     na = []
     for pid in ALL:
